@@ -116,7 +116,7 @@ CHECKS = {
                    "for every deposit count (with C08_appendonly: the same leaves and verifying proofs), i.e. tree queries after a reorg are those of a node that never saw the dropped blocks; C04_tables — after Reorg(b) block and event tables hold exactly the entries of blocks < b; "
                    "C04_event_keeps_earlier_rows — without legacy-token removals processing never touches rows of earlier blocks; C04_updatable_reorg — the updatable (rollup exit) tree: upserts below block b, upserts from b on, Reorg(b), then the new fork's upserts: the roots returned and every leaf / proof served for the versions of the surviving history are exactly those of the specification of that history (the dropped versions' nodes stay in the node table, harmlessly). PARTIAL: the full statement is FALSE for histories with RemoveLegacyToken events (C04_full_false_with_rmLegacy proves the witness on the model; "
                    "KNOWN-FINDING F3 replays it on the real code). Tie: the real bridge processor + BridgeSync facade vs the compiled model on the same blocks/faults/reorgs/restarts, all queries compared; monitor = a fresh real processor fed only the surviving blocks must answer every query identically. "
-                   "The L1-info-tree and injected-GER stores are not yet covered by this check.",
+                   "The L1-info-tree and injected-GER stores are not yet covered by this check. C04_tx_code_facts (regenerated: db/tx.go Commit reports every failure of the underlying commit). Every reorg is followed by a write on a control connection (a transaction left open is a monitor failure); commit faults and reorg faults on each of the L1 info store's three deletes are injected.",
         level_note="Trusted: Lean kernel; H.Inj; model/code correspondence (generator-bounded); SQLite cascade semantics exercised through the real schema, modelled as a filter. Covers the bridge store only in this round.",
         rule="seeded worlds of 14-25 steps: blocks with 0-5 events of all five kinds, faulted attempts + retries, reorg points uniform in [first-1, tip+2] (above tip, at first block, nested), restarts, deposit-count gaps; "
              "distinct non-trivial = distinct twin comparisons and (root, position) proof checks; 30% of the reorgs hit exactly the last stored block; 40% of the reorgs that drop deposits are followed by a refill of the new fork up to the old deposit count with an exit-root lookup before and after (persistent bridge data querier); tree and gersync as for C08 / C16",
@@ -163,7 +163,7 @@ CHECKS = {
                    "C11_v2_check_iff — a root announcement halts the syncer iff (root, leaf count) differs from the synced tree, and changes nothing otherwise; C11_verify_records_manager_root — an effective batch verification records the root of the tree of last exit roots with "
                    "position rollupID-1 updated (what the rollup manager computes), keeps the store closed for the new version; C11_zero_exit_root_skipped. Lookup by index / GER and the leaf hash layout are decided by the correspondence + contract-reference monitors. "
                    "Tie: the real l1infotreesync processor + L1InfoTreeSync facade vs the compiled model on the same blocks (info updates, V2 announcements right and wrong, batch verifications incl. zero/unchanged/recurring exit roots and rollup ids up to 2^32-1, init events), reorgs, restarts, halts; "
-                   "monitors: GER-contract reference (Go port of the deposit tree over keccak(ger,parentHash,ts)), sparse rollup-exit-tree reference, every (historical root, covered index) proof, twin comparison. Oracle = the REAL contracts (scenario evmger): PolygonZkEVMGlobalExitRootV2 bytecode and the repository's verify-batches mock (rollup exit root computed in Solidity) in go-ethereum's simulated EVM; their logs go through the syncer's own log handlers into the real processor; getRoot() / getLastGlobalExitRoot() / getRollupExitRoot() must equal the node's answers, and the same op lines are answered by the Lean model.",
+                   "monitors: GER-contract reference (Go port of the deposit tree over keccak(ger,parentHash,ts)), sparse rollup-exit-tree reference, every (historical root, covered index) proof, twin comparison. Oracle = the REAL contracts (scenario evmger): PolygonZkEVMGlobalExitRootV2 bytecode and the repository's verify-batches mock (rollup exit root computed in Solidity) in go-ethereum's simulated EVM; their logs go through the syncer's own log handlers into the real processor; getRoot() / getLastGlobalExitRoot() / getRollupExitRoot() must equal the node's answers, and the same op lines are answered by the Lean model. The tree scenario (statement-level faults incl. reads on UpsertLeaf) also runs under C11.",
         level_note="Trusted: Lean kernel; H.Inj; model/code correspondence (generator-bounded); the two L1 contracts are modelled by hand (deposit-tree algorithm; sparse tree of last exit roots) and cross-checked against independent Go ports, not against bytecode. "
                    "Hypotheses: distinct GERs (UNIQUE column); rollup id >= 1; no rollup goes from non-zero back to zero for manager-root equality; no recurrence of a previous rollup-exit-tree state (root is the table's primary key).",
         rule="seeded worlds of 14-25 steps: blocks with 0-5 events, 25% with 3-5 info updates, V2 announcements computed from the reference (35%) or deliberately wrong (12%), exit roots from a pool incl. zero and repeats; reorgs in [first-1, tip+2], restarts; "
@@ -183,7 +183,7 @@ CHECKS = {
                    "C05_retry_transparent — whatever the header queries answer (hash mismatches between eth_getLogs and the header query), when the range fetch returns blocks they are exactly the event blocks of the range, and it returns as soon as one of its 6 attempts sees no mismatch. "
                    "PARTIAL: the range fetch may also GIVE UP (six disagreeing header answers in a row) and the loop then treats the range as empty — runG / C05_giveup_false prove on the model that an event block below the finalized block is then skipped for good (the theorems above assume no give-up: runG_eq_run), and KNOWN-FINDING F6 replays exactly that schedule on the real code on every run. "
                    "Tie: the real sync.EVMDownloader.Download loop incl. GetEventsByBlockRange / GetLogs (topic + Removed filtering, header cross-check with scripted foreign headers / not-found / transient errors) against a scripted client serving the same chain and observation script for a fixed number of iterations (verif hook on the loop's iteration limit), output compared with the model; "
-                   "the real EVMDriver.Sync (scenario reorgsync): after every start, restart (incl. restarts at which the first reads of the last-processed marker fail) and rewind the driver must start its downloader right after the last stored block.",
+                   "the real EVMDriver.Sync (scenario reorgsync): after every start, restart (incl. restarts at which the first reads of the last-processed marker fail) and rewind the driver must start its downloader right after the last stored block. C05_no_stall_after_failed_read — the iteration after a failed read of the finalized pointer does not wait for a new block when blocks are left (directed schedule dlStall replays it on the real loop).",
         level_note="Trusted: Lean kernel; model/code correspondence (generator-bounded). Admissibility = what WaitForNewBlocks guarantees (a returned tip exceeds the last one) and start <= tip+1. The chain is fixed (reorgs: C06). The driver's retry loop and the hand-over through the Go channel are exercised by the store scenarios (C07), not modelled here; "
                    "the six-mismatch give-up path of getEventsByBlockRangeWithRetry is known finding F6 (modelled, witnessed, replayed).",
         rule="seeded: chunk in {0,1,2,3,7,10,50}, event density 5-80%, 1-3 watched logs per event block plus logs of other topics and Removed logs, 4-17 iterations of strictly increasing tips (occasional jumps of 20+), finality lag in {0,1,3,8,100} or pointer at/above the tip or frozen, 8% failing finalized lookups, 40% of the runs with 1-4 faulty header answers (foreign hash / not found / error); distinct non-trivial = distinct run lines; reorgsync as for C06 (40% of its restarts with failing marker reads); every fifth watched log makes the log appender fail once; removed logs carry the dropped block's hash and may come first in their block; one directed give-up run (F6); reorgsync as for C06",
@@ -230,7 +230,7 @@ CHECKS = {
                    "C06_tracked_or_final — every block a syncer has processed is still tracked by the detector with the hash it was processed with, or was delivered as finalized and is on the chain; C06_detected — after a detection pass that could fetch the headers it needed no block that the chain has replaced remains in the syncer's store (it was rewound to at or before the first replaced block it had processed), and the rewind point is exactly the first tracked block whose hash differs; "
                    "C06_no_spurious_rewind — if nothing it processed was replaced, the pass leaves the store alone; C06_stopped_during_reorg — a stop while a syncer rewinds keeps the stale blocks tracked, so the next pass after the restart rewinds again; C06_restart; C06_converges — once the chain has stopped changing, one pass plus syncing to the tip leaves the store equal to the canonical chain (blocks 1…tip, each the chain's block). "
                    "PARTIAL: the schedule is sequential (an operation completes before the next starts); the window between the driver's acknowledgement and the detector's removal of the tracked range is where the full statement FAILS: the model splits the pass into its two halves (detectNotify, detectFinish; detectSub_is_notify_then_finish proves that back to back they are the sequential pass in every state the theorems speak about) and C06_race_false proves, by evaluation, the witness — a block of the new fork processed between the halves is stored, not final and no longer tracked, and its later replacement goes unseen by a complete pass; the same schedule is replayed on the real code on every run (KNOWN-FINDING F5, directed `race` op: the detector's database is kept busy for 150 ms after the rewind). "
-                   "Tie: reorgsync scenario — the real ReorgDetector (SQLite tracked blocks, one pass per op via the verif hook, real reload at restart), two real EVMDrivers in their own goroutines (real select loop, handleNewBlock, handleReorg) over two real bridge processors, a scripted downloader that hands out the block the chain has at that moment, a scripted chain client; stores and tracked lists after every op are compared with the model; monitors: rewound iff something processed was replaced, to at or before the first replaced block; no replaced block left after a pass; convergence to the chain at the end of every world.",
+                   "Tie: reorgsync scenario — the real ReorgDetector (SQLite tracked blocks, one pass per op via the verif hook, real reload at restart), two real EVMDrivers in their own goroutines (real select loop, handleNewBlock, handleReorg) over two real bridge processors, a scripted downloader that hands out the block the chain has at that moment, a scripted chain client; stores and tracked lists after every op are compared with the model; monitors: rewound iff something processed was replaced, to at or before the first replaced block; no replaced block left after a pass; convergence to the chain at the end of every world. Since round 5 the model has blocks WITHOUT events (never delivered, never tracked): stores and tracked lists are sparse; SubInv2 (no gap below a clean prefix; versions fresh) is inductive over every history and C06_converges states that the store ends up holding exactly the chain's blocks with events. The table tracked_block is part of the state: C06_restart is a theorem about reachable states, C06_reload_any_order shows the reload does not depend on the order of the rows. The downloader scenario also runs here (a syncer following the safe block must not flag its blocks as finalized).",
         level_note="Trusted: Lean kernel; model/code correspondence (generator-bounded); the downloader is scripted (the real EVMDownloader is C05's subject); sequential schedule; a detection pass that hits the reorg_event key within the same wall-clock second is retried once by the harness, as the periodic check would at its next tick.",
         rule="seeded worlds (10 quick / 60 thorough) of 40/80 ops: 25% new blocks, 30% a subscriber syncs 1-3 blocks, 11% detection pass, 4% detection pass during which the node is stopped while a syncer rewinds (then restart), 12% reorg at a random depth above the finalized block with a new fork usually at least as long (15% shorter), 10% finality moves, 8% restart; at the end the chain grows by 4 blocks and convergence is required; distinct non-trivial = distinct (reorg depth, new fork length) classes",
         assumptions=["finalized blocks are never replaced", "operations do not overlap in time (F5 documents the overlap that matters)"],
@@ -272,7 +272,7 @@ CHECKS = {
         leanchecker=True,
         level_text="Proved in Lean 4 for EVERY content of the L1 info tree, the verified-batches table and the bridge stores and every deposit count: C12_index_covers_l1 / C12_index_covers_l2 — whenever the L1-info-index lookup (both binary searches, modelled loop for loop over the queries they issue: first/last/first-after-block info, first/last/first-after-block verified batches, first info with a rollup exit root, root by exit root) answers with an index, "
                    "that index is a recorded leaf whose mainnet exit root (rollup exit root) commits to more than the asked deposit count; in every other case it returns an error. C12_claim_proof — after any history of an exit tree store the proof served for (deposit, exit root of any recorded version covering it) hashes the deposit's leaf to exactly that root (C08's store theorem; the rollup exit tree half is C08_updatable_step). "
-                   "Tie: bridgeapi scenario — the service's own HTTP router and handlers (/l1-info-tree-index, /claim-proof) over the real L1 and L2 bridge processors and the real L1 info tree processor (incl. the rollup exit tree) in a joint L1/L2 world; every lookup answer is compared with the model and checked by a monitor against the generated world; every returned claim proof is verified (leaf -> local/mainnet exit root -> rollup exit root, returned L1 info leaf) with an independent verifier against independently computed trees.",
+                   "Tie: bridgeapi scenario — the service's own HTTP router and handlers (/l1-info-tree-index, /claim-proof) over the real L1 and L2 bridge processors and the real L1 info tree processor (incl. the rollup exit tree) in a joint L1/L2 world; every lookup answer is compared with the model and checked by a monitor against the generated world; every returned claim proof is verified (leaf -> local/mainnet exit root -> rollup exit root, returned L1 info leaf) with an independent verifier against independently computed trees. C12_injected_leaf — for a claim on the L2 the API hands out the FIRST L1 info leaf at or after the requested index whose global exit root was injected there, and finds one whenever one exists (/injected-l1-info-leaf, exercised by ops inj / q inj); q proof! serves /claim-proof while the exit tree's node table cannot be read (an error, never an unverifiable proof).",
         level_note="Trusted: Lean kernel; model/code correspondence (generator-bounded); the lookup is safe, not live: it returns an error although a covering leaf exists when the search meets an info leaf whose mainnet exit root is the empty tree's (observed in worlds whose first info leaves predate any mainnet deposit; allowed by the property, noted in DESIGN); block numbers >= 1; /injected-l1-info-leaf is not exercised.",
         rule="seeded worlds (12 quick / 80 thorough) of 16/30 steps: L1 blocks with 1-4 events in arbitrary order (mainnet deposits, info updates naming any not-yet-named prefix of the deposits — several per block —, verified batches of this network with any not-yet-verified prefix of the L2 deposits, verified batches of other rollups), L2 blocks with 1-3 deposits; 30% of the worlds start with info leaves before any deposit; after every third step: the lookup for every deposit and one beyond on both networks, and the claim proof for random covered (leaf, deposit) pairs; distinct non-trivial = distinct (network, answered index) and (network, deposit, leaf) classes; info leaves before the first mainnet deposit carry bytes32(0) as mainnet exit root in 60% of the worlds, a directed prelude puts such a leaf in front of deposit 0 in the first world; every returned proof is also put to the real bridge contract's verifyMerkleProof",
         assumptions=["the GER contract records an info leaf only when the global exit root changed", "both bridge syncers have processed the blocks the info leaves refer to"],
@@ -314,7 +314,7 @@ CHECKS = {
         leanchecker=True,
         level_text="Proved in Lean 4 for every sequence of ticks and environments (any relative speed of finality, syncing and ticking; any transient error of each dependency): C15_safe — every injected root is the most recent L1 info root at or below a block that had the configured finality when sampled "
                    "(at this or an earlier tick), which the syncer has reached, and which the L2 contract did not have when checked; C15_skip_if_present; C15_progress — once a finalized block F was sampled and only the syncer was behind, F stays the target over any number of such ticks and the first tick at which the syncer has reached F injects (or finds injected) the most recent root at or below F: newer finalized blocks cannot starve the oracle. "
-                   "Tie: the real AggOracle tick (verif hook) over the REAL L1 info tree processor and facade (GetLatestInfoUntilBlock), scripted L1 client and L2 sender with injected failures, vs the compiled model; monitors evaluate safety and progress on the implementation's actions. Genuine defect found and fixed in /repo: F11 (sticky target was a dead store).",
+                   "Tie: the real AggOracle tick (verif hook) over the REAL L1 info tree processor and facade (GetLatestInfoUntilBlock), scripted L1 client and L2 sender with injected failures, vs the compiled model; monitors evaluate safety and progress on the implementation's actions. Genuine defect found and fixed in /repo: F11 (sticky target was a dead store). C15_final_stable — an L1 reorg above the block a root was fetched for does not change the most recent root at or below that block (op l1reorg, half of them at the syncer's tip).",
         level_note="Trusted: Lean kernel; model/code correspondence (generator-bounded); the ticker/goroutine of Start is not exercised (one tick = one call); the L2 sender contract is a fake.",
         rule="seeded worlds: finality advancing 1-12 blocks per tick (+ jumps), syncer lag in [-4, 11] blocks behind the newest finalized block with jitter, 35% of synced blocks carrying 1-2 info updates, each dependency failing 6% of the time, third parties injecting roots; distinct non-trivial = distinct (world, tick, outcome kind)",
         assumptions=["one oracle instance", "finalized blocks are never replaced"],
